@@ -71,7 +71,7 @@ func (p *prop) runMr(f []string) core.Outcome {
 			fl.What = fmt.Sprintf("request %d of the sequence: %s", i+1, fl.What)
 			o.Failures = append(o.Failures, fl)
 		}
-		if strings.Contains(so.Impl, " log=") && strings.Contains(so.Impl, "ec") {
+		if strings.Contains(so.Impl, ";EC ") || strings.Contains(so.Impl, "=EC ") {
 			encoded++
 		}
 		// the same request on an instance of its own: nothing of what came before may show
@@ -122,6 +122,10 @@ func (g *genCase) mrCase() string {
 		if f := strings.Fields(g.one()); len(f) == 12 {
 			first = f
 		}
+	}
+	if g.rng.Chance(1, 3) {
+		// every response with a body is eligible: encoder objects travel from response to response
+		first[2], first[3] = "1", "c:*:*"
 	}
 	n := 2 + g.rng.Intn(3)
 	out := []string{"mr", fmt.Sprint(n)}
